@@ -628,6 +628,11 @@ def effect(U, a: A, op):
             _attach(b, y, c, pos=i)
             return [b], None
         others = [v for v in lst if v != y]
+        if y in lst and 0 <= i <= len(others):
+            # a member of the same list is moved: afterwards it stands at index i, the others keep their order
+            b = a.copy()
+            _lst(b, c)[:] = others[:i] + [y] + others[i:]
+            return [b], None
         res = []
         for arr in _interleavings(others, [y]):
             b = a.copy()
